@@ -59,12 +59,21 @@ func (c *Calcium) doCreateWorkloads(ctx context.Context, opts *types.DeployOptio
 	)
 
 	_ = c.pool.Invoke(func() {
+		var processingCommits map[string]wal.Commit
 		defer func() {
 			cctx, cancel := context.WithTimeout(utils.NewInheritCtx(ctx), c.config.GlobalTimeout)
 			for nodename := range deployMap {
 				processing := opts.GetProcessing(nodename)
 				if err := c.store.DeleteProcessing(cctx, processing); err != nil {
+					// keep the wal entry: the recovery will delete the processing
 					logger.Errorf(ctx, err, "delete processing failed for %s", nodename)
+					continue
+				}
+				// the processing is gone, only now the wal entry which guards it may go
+				if commit, ok := processingCommits[nodename]; ok {
+					if err := commit(); err != nil {
+						logger.Errorf(ctx, err, "commit wal failed: %s, %s", eventProcessingCreated, nodename)
+					}
 				}
 			}
 			close(ch)
@@ -80,16 +89,6 @@ func (c *Calcium) doCreateWorkloads(ctx context.Context, opts *types.DeployOptio
 			}
 		}()
 
-		var processingCommits map[string]wal.Commit
-		defer func() {
-			for nodename := range processingCommits {
-				if commit, ok := processingCommits[nodename]; ok {
-					if err := commit(); err != nil {
-						logger.Errorf(ctx, err, "commit wal failed: %s, %s", eventProcessingCreated, nodename)
-					}
-				}
-			}
-		}()
 
 		_ = utils.Txn(
 			ctx,
